@@ -4,16 +4,19 @@
 # (2) demo fails with it, (3) demo passes without it. Writes /verif/.build/confirm/<name>.txt
 set -u
 OUT=/verif/.build/confirm; mkdir -p $OUT
-declare -A WT=( [C11a]=/tmp/wt-m1 [C11b]=/tmp/wt-m2 [C11c]=/tmp/wt-m3 [C18a]=/tmp/wt-m4 [C18b]=/tmp/wt-m5 [C18c]=/tmp/wt-m6 )
+declare -A WT=( [C11a]=/tmp/wt-m1 [C11b]=/tmp/wt-m2 [C11c]=/tmp/wt-m3 [C18a]=/tmp/wt-m4 [C18b]=/tmp/wt-m5 [C18c]=/tmp/wt-m6 [C11d]=/tmp/wt-n11 [C11e]=/tmp/wt-n12 [C11f]=/tmp/wt-n13 [C11g]=/tmp/wt-n14 [C18d]=/tmp/wt-n15 [C18e]=/tmp/wt-n16 )
+declare -A BASE=( [C11a]=7c1ff7b [C11b]=7c1ff7b [C11c]=7c1ff7b [C18a]=7c1ff7b [C18b]=7c1ff7b [C18c]=7c1ff7b [C11d]=345b324 [C11e]=345b324 [C11f]=345b324 [C11g]=345b324 [C18d]=345b324 [C18e]=345b324 )
 demo_cmd() { # $1 = dir, $2 = worktree
   if [ -x "$1/demo.sh" ]; then (cd "$1" && ./demo.sh "$2")
   elif [ -x "$1/run.sh" ]; then (cd "$1" && ./run.sh)
+  elif [ -x "$1/demo/run.sh" ]; then (cd "$1/demo" && ./run.sh)
+  elif [ -f "$1/demo/src/main.rs" ] && [ ! -d "$1/demo/tests" ]; then (cd "$1/demo" && cargo run --offline -q)
   else (cd "$1/demo" && cargo test --offline); fi
 }
 for g in "$@"; do
   wt=${WT[$g]}
   git -C /repo worktree remove --force $wt 2>/dev/null; rm -rf $wt; git -C /repo worktree prune
-  git -C /repo worktree add --detach $wt 7c1ff7b >/dev/null 2>&1 || { echo "$g: worktree failed"; continue; }
+  git -C /repo worktree add --detach $wt ${BASE[$g]} >/dev/null 2>&1 || { echo "$g: worktree failed"; continue; }
   for k in 1 2; do
     d=/tmp/out-$g/$k; n=$g-$k; r=$OUT/$n.txt; : > $r
     [ -f $d/patch.diff ] || continue
